@@ -41,7 +41,7 @@ use std::rc::Rc;
 pub const DEF: PropDef = PropDef {
     id: "C19",
     level: "fault_enumeration",
-    rule: "cases = (every fact set of <=4 (quick) / <=5 (thorough) triples of a 10-triple universe) x (1-2 denial constraints out of 5: type clash, 2-cycle/self-loop, 3-fact clash, two-value functional clash, unary denial) x (9 goal patterns over constants/variables incl. repeated variable, variable predicate, ground) x (every order strategy of the H2 order oracle: all n! global rankings of the case's facts + every call-indexed deviation from sorted order of total cost 1 move; thorough additionally every deviation of total cost 2 moves (one call or two calls) for the all-variable goal, whose answer is the whole intersection of the repairs); each (case, goal, strategy) is one Reasoner::query_with_repairs call compared with the brute-force intersection of all subset-maximal consistent subsets; plus infer_new_facts_semi_naive_with_repairs on (case x 7 rule sets x all rankings) whose final store must violate no constraint. evaluations = engine calls; non-trivial = (fact set, constraint set) that is inconsistent and has >=2 repairs; distinct = distinct such pairs; outcomes = distinct answer sets / final stores",
+    rule: "cases = (every fact set of <=4 (quick) / <=5 (thorough) triples of a 10-triple universe) x (1-2 denial constraints out of 5: type clash, 2-cycle/self-loop, 3-fact clash, two-value functional clash, unary denial) x (9 goal patterns over constants/variables incl. repeated variable, variable predicate, ground) x (every order strategy of the H2 order oracle: all n! global rankings of the case's facts + every call-indexed deviation from sorted order of total cost 1 move; thorough additionally every deviation of total cost 2 moves (one call or two calls) for the all-variable goal, whose answer is the whole intersection of the repairs); each (case, goal, strategy) is one Reasoner::query_with_repairs call compared with the brute-force intersection of all subset-maximal consistent subsets; plus infer_new_facts_semi_naive_with_repairs on (case x 10 rule sets x all rankings; the rule sets derive facts that clash with a stored fact, with a fact derived in the same round, and - a self-loop under the 2-cycle constraint - with themselves) whose final store must violate no constraint. evaluations = engine calls; non-trivial = (fact set, constraint set) that is inconsistent and has >=2 repairs; distinct = distinct such pairs; outcomes = distinct answer sets / final stores",
     assumptions: &[
         "universe: individuals a,b,c; predicates t (types A,B,C), f, g; constraints are pure conjunctive denial constraints without filters (violates_constraints ignores Rule::filters; the statement does not fix filter semantics)",
         "hook H2 (datalog/src/verif.rs) is add-only: with no oracle installed Ordered::iter yields the HashSet order",
@@ -69,7 +69,7 @@ const CONSTRAINTS: [(&str, &str); 5] = [
 const GOALS: [&str; 9] = ["?X ?P ?Y", "?X t ?Y", "a ?P ?Y", "?X ?P b", "?X f ?X", "?X t A", "a f ?Y", "a t A", "a g b"];
 
 /// rule sets for the materialisation part (each can derive a fact that clashes with some constraint)
-const RULE_SETS: [&[&str]; 7] = [
+const RULE_SETS: [&[&str]; 10] = [
     &[],
     &["?x t B :- ?x t A"],
     &["?y f ?x :- ?x f ?y"],
@@ -77,6 +77,12 @@ const RULE_SETS: [&[&str]; 7] = [
     &["?x f c :- ?x f b"],
     &["?y t B :- ?x f ?y"],
     &["?x t B :- ?x t A", "?y f ?x :- ?x f ?y"],
+    // a derived fact that violates a constraint ON ITS OWN (a self-loop fills both premises of two_cycle)
+    &["?x f ?x :- ?x g ?y"],
+    // two facts derived in the same round that clash with each other, neither is there before
+    &["?x t A :- ?x g ?y", "?x t B :- ?x g ?y"],
+    // derived self-loop feeding a further rule
+    &["?x f ?x :- ?x t A", "?y t B :- ?x f ?y"],
 ];
 
 fn parse_body(s: &str) -> Vec<Atom> {
